@@ -93,6 +93,11 @@ var parseCtx = []struct{ pre, post string }{
 	{vT + "{delcall a.b}", "{/delcall}\n{/template}\n"},        // 75
 	{vT + "{debugger}{log}", "{/log}\n{/template}\n"},          // 76
 	{"{delpackage", ""},                                        // 77
+	// soydoc lines without a param name, one and several, before and after other errors
+	{"{namespace a}\n/**\n * @param \n * @param? \n */\n{template .t}\nx\n{/template}\n", ""},       // 78
+	{"{namespace a}\n/** @param \n @param ", ""},                                                    // 79
+	{"{namespace a}\n{foo}\n/**\n * @param \n */\n{template .t}\n", "\n{/template}\n"},              // 80
+	{"{namespace a}\n/** @param x */\n{template .t}\n{$x", "\n{/template}\n/**\n * @param \n */\n"}, // 81
 }
 
 // exprCtx: the same for parse.Expr
